@@ -21,6 +21,9 @@ def replay(req):
     func = req.get('func', '')
     if func.startswith('created_files.'):
         return created_files_search(req)
+    r = replay_extra(req)
+    if r is not None:
+        return r
     return {'reproduced': False, 'note': 'no replay template for %s' % func}
 
 
@@ -102,3 +105,223 @@ def created_files_search(req):
         return r
     return {'reproduced': False, 'evaluations': n,
             'note': 'exhaustive over call sequences up to length %d on 4 nested paths' % maxlen}
+
+
+# -------------------------------------------------------------------------------------------------
+# shared helpers for API-level templates
+import gzip
+import json
+import stat as _stat
+
+
+def snapshot(root):
+    out = {}
+    for dirpath, dirnames, filenames in os.walk(root):
+        out[dirpath] = ('dir',)
+        for f in filenames:
+            p = os.path.join(dirpath, f)
+            st = os.lstat(p)
+            with open(p, 'rb') as fh:
+                out[p] = ('file', fh.read(), st.st_mtime_ns, st.st_ino)
+    return out
+
+
+def write(path, text):
+    os.makedirs(os.path.dirname(path), exist_ok=True)
+    with open(path, 'w') as f:
+        f.write(text)
+
+
+def tmp_listing():
+    d = tempfile.gettempdir()
+    return sorted(x for x in os.listdir(d) if x.startswith('file_builder_'))
+
+
+def basic_build(builder, root, log):
+    def mk(b, filename, text):
+        log.append(('mk', filename))
+        write(filename, text)
+        return len(text)
+
+    def sub(b, n):
+        log.append(('sub', n))
+        b.build_file(os.path.join(root, 'out', 'd', 'o%d.txt' % n), 'mk', mk, 'x' * n)
+        return [n]
+    log.append(('root',))
+    return [builder.subbuild('sub', sub, 1), builder.subbuild('sub', sub, 2)]
+
+
+def replay_extra(req):
+    func = req.get('func', '')
+    short = func.split('#')[0]
+    if short in ('file_builder.FileBuilder.build_versioned', 'file_builder.FileBuilder.clean',
+                 'cache.Cache.read_immutable', 'file_builder.FileBuilder.build',
+                 'file_builder.FileBuilder._sanitize_versions'):
+        return refusal_cases(req)
+    if func.endswith('#finished') or short in ('file_builder.FileBuilder._assert_not_finished',
+                                               'file_builder.FileBuilder._append_suboperation',
+                                               'file_builder.FileBuilder._exec_simple_operation'):
+        return fence_cases(req)
+    return None
+
+
+def refusal_cases(req):
+    """C15: every refused build/clean leaves the tree bit-identical, no temp dir, no callback"""
+    from file_builder import FileBuilder
+    root = scratch()
+    n = 0
+    try:
+        cache = os.path.join(root, 'c', 'cache.gz')
+        log = []
+        FileBuilder.build(cache, 'name', basic_build, root, log)
+        write(os.path.join(root, 'foreign.txt'), 'foreign')
+        good = open(cache, 'rb').read()
+        data = json.loads(gzip.decompress(good))
+        other = dict(data, software='someone else')
+        newer = dict(data, cacheFileVersion=[99])
+        corruptions = {
+            'truncated-1': good[:1], 'truncated-half': good[:len(good) // 2],
+            'truncated-last': good[:-1], 'empty': b'', 'not-gzip': b'hello world',
+            'bitflip': good[:20] + bytes([good[20] ^ 0xff]) + good[21:],
+            'gzip-not-json': gzip.compress(b'{not json'),
+            'json-list': gzip.compress(b'[1,2]'), 'json-null': gzip.compress(b'null'),
+            'other-software': gzip.compress(json.dumps(other).encode()),
+            'newer-format': gzip.compress(json.dumps(newer).encode()),
+        }
+        calls = []
+        for cname, blob in corruptions.items():
+            calls.append((cname, blob, lambda lg: FileBuilder.build(cache, 'name', basic_build,
+                                                                    root, lg)))
+            calls.append((cname + '/clean', blob, lambda lg: FileBuilder.clean(cache, 'name')))
+        calls.append(('wrong-name', good, lambda lg: FileBuilder.build(cache, 'other',
+                                                                       basic_build, root, lg)))
+        calls.append(('wrong-name/clean', good, lambda lg: FileBuilder.clean(cache, 'other')))
+        calls.append(('name-not-str', good, lambda lg: FileBuilder.build(cache, 5, basic_build,
+                                                                         root, lg)))
+        calls.append(('func-not-callable', good, lambda lg: FileBuilder.build(cache, 'name', 7)))
+        calls.append(('path-not-pathlike', good, lambda lg: FileBuilder.build(3.5, 'name',
+                                                                              basic_build, root,
+                                                                              lg)))
+        calls.append(('versions-not-dict', good, lambda lg: FileBuilder.build_versioned(
+            cache, 'name', [1], basic_build, root, lg)))
+        calls.append(('versions-not-json', good, lambda lg: FileBuilder.build_versioned(
+            cache, 'name', {'a': object()}, basic_build, root, lg)))
+        calls.append(('clean-name-not-str', good, lambda lg: FileBuilder.clean(cache, 5)))
+        calls.append(('cache-is-dir', None, lambda lg: FileBuilder.build(
+            os.path.join(root, 'out'), 'name', basic_build, root, lg)))
+        calls.append(('cache-is-dir/clean', None, lambda lg: FileBuilder.clean(
+            os.path.join(root, 'out'), 'name')))
+        for (cname, blob, call) in calls:
+            n += 1
+            if blob is not None:
+                with open(cache, 'wb') as f:
+                    f.write(blob)
+            before, tmp_before = snapshot(root), tmp_listing()
+            lg = []
+            try:
+                call(lg)
+                raised = None
+            except Exception as e:
+                raised = type(e).__name__
+            after, tmp_after = snapshot(root), tmp_listing()
+            problem = None
+            if raised is None:
+                problem = 'call was not refused'
+            elif before != after:
+                diff = sorted(set(before) ^ set(after)) or [k for k in before
+                                                             if before[k] != after.get(k)]
+                problem = 'tree changed: %r' % diff[:3]
+            elif tmp_before != tmp_after:
+                problem = 'temporary directory left behind'
+            elif lg:
+                problem = 'user function was called: %r' % lg[:2]
+            if problem:
+                return {'reproduced': True, 'check': 'refused call has side effects (%s)' % cname,
+                        'observed': problem, 'raised': raised, 'evaluations': n, 'input': cname}
+        return {'reproduced': False, 'evaluations': n,
+                'note': '%d refusal cases left the tree bit-identical' % n}
+    finally:
+        shutil.rmtree(root, ignore_errors=True)
+
+
+def fence_cases(req):
+    """C17: every method of a builder whose function has finished raises RuntimeError, no effect"""
+    from file_builder import FileBuilder
+    root = scratch()
+    n = 0
+    try:
+        cache = os.path.join(root, 'cache.gz')
+        write(os.path.join(root, 'in.txt'), 'input')
+        held = {}
+
+        def mkfile(b, filename):
+            held['file'] = b
+            write(filename, 'x')
+
+        def sub(b):
+            held['sub'] = b
+            return 1
+
+        def sub_raises(b):
+            held['sub_raised'] = b
+            raise ValueError('x')
+
+        def rootf(b):
+            held['root'] = b
+            b.subbuild('sub', sub)
+            b.build_file(os.path.join(root, 'o.txt'), 'mk', mkfile)
+            try:
+                b.subbuild('sub_raises', sub_raises)
+            except ValueError:
+                pass
+        FileBuilder.build(cache, 'n', rootf)
+        logs = []
+
+        def cb(b, *a):
+            logs.append('called')
+            return 1
+        target = os.path.join(root, 'new', 'x.txt')
+        methods = {
+            'build_file': lambda b: b.build_file(target, 'cb', cb),
+            'build_file_with_comparison': lambda b: b.build_file_with_comparison(
+                target, __import__('file_builder').FileComparison.HASH, 'cb', cb),
+            'subbuild': lambda b: b.subbuild('cb', cb),
+            'read_text': lambda b: b.read_text(os.path.join(root, 'in.txt')),
+            'read_binary': lambda b: b.read_binary(os.path.join(root, 'in.txt')),
+            'declare_read': lambda b: b.declare_read(os.path.join(root, 'in.txt')),
+            'list_dir': lambda b: b.list_dir(root),
+            'walk': lambda b: b.walk(root),
+            'is_file': lambda b: b.is_file(os.path.join(root, 'in.txt')),
+            'is_dir': lambda b: b.is_dir(root),
+            'exists': lambda b: b.exists(root),
+            'get_size': lambda b: b.get_size(os.path.join(root, 'in.txt')),
+        }
+        for kind, b in sorted(held.items()):
+            for mname, call in sorted(methods.items()):
+                n += 1
+                before = snapshot(root)
+                nsub = len(b._operation.suboperations) if b._operation is not None else None
+                try:
+                    call(b)
+                    raised = None
+                except Exception as e:
+                    raised = type(e).__name__
+                after = snapshot(root)
+                nsub2 = len(b._operation.suboperations) if b._operation is not None else None
+                problem = None
+                if raised != 'RuntimeError':
+                    problem = 'raised %s instead of RuntimeError' % raised
+                elif before != after:
+                    problem = 'tree changed'
+                elif logs:
+                    problem = 'user function was called'
+                elif nsub != nsub2:
+                    problem = 'an operation was attached to a closed record'
+                if problem:
+                    return {'reproduced': True, 'input': '%s builder, %s' % (kind, mname),
+                            'check': 'finished builder is not fenced off', 'observed': problem,
+                            'evaluations': n}
+        return {'reproduced': False, 'evaluations': n,
+                'note': '%d method x builder-kind cases raised RuntimeError without effect' % n}
+    finally:
+        shutil.rmtree(root, ignore_errors=True)
